@@ -313,7 +313,7 @@ func (c *fnCtx) readOnlyPtrParams(f *ast.Field) bool {
 			}
 			return true
 		})
-		p := &fnParam{goName: n.Name}
+		p := &fnParam{goName: n.Name, ptrStruct: ts}
 		if c.ptrFields == nil {
 			c.ptrFields = map[*ast.Object]map[string]*fnVar{}
 		}
